@@ -120,6 +120,14 @@ class Obj:
                 if x[2] not in cache:
                     cache[x[2]] = self.get(x[2], depth + 1)
                 return cache[x[2]]
+            # a temporary of another value class: Cls(args).prop is its constructor followed by the getter
+            if x[0] == "attr" and x[1][0] == "call" and x[1][1][0] == "clsref" and x[1][1][1] in self.prog.classes:
+                try:
+                    tmp = construct(self.prog, x[1][1][1], [renorm(subst(a, fn)) for a in x[1][2]],
+                                    tuple((k, renorm(subst(v, fn))) for k, v in x[1][3]))
+                    return tmp.get(x[2], depth + 1)
+                except AnalysisError:
+                    return None
             return None
         return renorm(subst(rets[0], fn))
 
